@@ -981,6 +981,74 @@ func indexKeys(fn *ast.FuncDecl, base string) []string {
 	return out
 }
 
+// valueFlow lists, in source order, every place of `fd` where the variable first assigned from a call to one
+// of `origins` is written (lhs:<callee or expression>) or handed to a call (arg:<callee>).
+func valueFlow(fd *ast.FuncDecl, origins ...string) []string {
+	if fd == nil {
+		return []string{"<function not found>"}
+	}
+	v := ""
+	var out []string
+	isOrigin := func(n string) bool {
+		for _, o := range origins {
+			if n == o {
+				return true
+			}
+		}
+		return false
+	}
+	mentions := func(e ast.Expr) bool {
+		found := false
+		ast.Inspect(e, func(n ast.Node) bool {
+			if id, ok := n.(*ast.Ident); ok && id.Name == v {
+				found = true
+			}
+			return true
+		})
+		return found
+	}
+	ast.Inspect(fd.Body, func(n ast.Node) bool {
+		switch s := n.(type) {
+		case *ast.AssignStmt:
+			if v == "" {
+				if len(s.Rhs) == 1 {
+					if c, ok := s.Rhs[0].(*ast.CallExpr); ok && isOrigin(src(c.Fun)) {
+						v = src(s.Lhs[0])
+						out = append(out, "lhs:"+src(c.Fun))
+						return false
+					}
+				}
+				return true
+			}
+			for _, l := range s.Lhs {
+				if src(l) == v {
+					rhs := src(s.Rhs[0])
+					if c, ok := s.Rhs[0].(*ast.CallExpr); ok {
+						rhs = src(c.Fun)
+					}
+					out = append(out, "lhs:"+rhs)
+				}
+			}
+		case *ast.CallExpr:
+			if v == "" {
+				return true
+			}
+			for _, a := range s.Args {
+				if mentions(a) {
+					out = append(out, "arg:"+src(s.Fun))
+					break
+				}
+			}
+		case *ast.IncDecStmt:
+			if v != "" && src(s.X) == v {
+				out = append(out, "incdec")
+			}
+		}
+		return true
+	})
+	return out
+}
+
 // ---------- fingerprints ----------
 
 func fingerprint(fd *ast.FuncDecl) string {
@@ -1113,6 +1181,8 @@ func main() {
 	b.WriteString("def poolCollectShape : List String := " + leanStrList(pf.Collect) + "\n\n")
 
 	// json keys
+	b.WriteString("def bundleProducerBytesFlow : List String := " + leanStrList(valueFlow(findFunc(gens, "processDirectory"), "json.MarshalIndent", "json.Marshal")) + "\n")
+	b.WriteString("def bundleConsumerBytesFlow : List String := " + leanStrList(valueFlow(findFunc(ci, "downloadRuleset"), "io.ReadAll", "ioutil.ReadAll")) + "\n")
 	b.WriteString("def bundleProducerTop : List String := " + leanStrList(structTags(gens, "CQLFiles")) + "\n")
 	b.WriteString("def bundleProducerFile : List String := " + leanStrList(structTags(gens, "CQLFileContent")) + "\n")
 	b.WriteString("def bundleConsumerTop : List String := " + leanStrList(indexKeys(findFunc(ci, "downloadRuleset"), "response")) + "\n")
@@ -1194,6 +1264,60 @@ func main() {
 	if vf := findFunc(construct, visitorName); vf != nil {
 		visitorGraphLoops = countGraphLoops(vf)
 	}
+	// the same count over everything the visitor can reach through calls inside the graph package
+	// (functions and methods matched by name: an over-approximation of the call graph)
+	pkgFuncs := map[string][]*ast.FuncDecl{}
+	gdir := filepath.Join(sp, "graph")
+	if ents, err := os.ReadDir(gdir); err == nil {
+		for _, e := range ents {
+			n := e.Name()
+			if e.IsDir() || !strings.HasSuffix(n, ".go") || strings.HasSuffix(n, "_test.go") || strings.HasPrefix(n, "verif_") {
+				continue
+			}
+			for _, d := range parseFile(filepath.Join(gdir, n)).Decls {
+				if fd, ok := d.(*ast.FuncDecl); ok && fd.Body != nil {
+					pkgFuncs[fd.Name.Name] = append(pkgFuncs[fd.Name.Name], fd)
+				}
+			}
+		}
+	}
+	reached := map[string]bool{}
+	var visit func(name string)
+	visit = func(name string) {
+		if reached[name] {
+			return
+		}
+		reached[name] = true
+		for _, fd := range pkgFuncs[name] {
+			ast.Inspect(fd.Body, func(n ast.Node) bool {
+				if c, ok := n.(*ast.CallExpr); ok {
+					switch f := c.Fun.(type) {
+					case *ast.Ident:
+						if _, ok := pkgFuncs[f.Name]; ok {
+							visit(f.Name)
+						}
+					case *ast.SelectorExpr:
+						if _, ok := pkgFuncs[f.Sel.Name]; ok {
+							visit(f.Sel.Name)
+						}
+					}
+				}
+				return true
+			})
+		}
+	}
+	visit(visitorName)
+	visitorReachLoops := 0
+	var reachedNames []string
+	for name := range reached {
+		for _, fd := range pkgFuncs[name] {
+			if c := countGraphLoops(fd); c > 0 {
+				visitorReachLoops += c
+				reachedNames = append(reachedNames, name)
+			}
+		}
+	}
+	sort.Strings(reachedNames)
 	if ef := findFunc(construct, "buildGraphFromAST"); ef != nil {
 		ast.Inspect(ef.Body, func(n ast.Node) bool {
 			if c, ok := n.(*ast.CallExpr); ok {
@@ -1217,6 +1341,8 @@ func main() {
 	}
 	fmt.Fprintf(&b, "def visitorName : String := %s\n", leanStr(visitorName))
 	fmt.Fprintf(&b, "def visitorGraphLoops : Nat := %d\n", visitorGraphLoops)
+	fmt.Fprintf(&b, "def visitorReachableGraphLoops : Nat := %d\n", visitorReachLoops)
+	b.WriteString("def visitorReachableLoopFuncs : List String := " + leanStrList(reachedNames) + "\n")
 	fmt.Fprintf(&b, "def entryPointCallsItself : Nat := %d\n", entryRecursive)
 	fmt.Fprintf(&b, "def entryPointPassCalls : Nat := %d\n", entryPassCalls)
 	fmt.Fprintf(&b, "def passNestedGraphLoops : Nat := %d\n", passGraphLoops)
@@ -1241,7 +1367,8 @@ func main() {
 		lj = append(lj, litJSON{l.TsTypes, l.Ops, l.Kind, l.Fields, l.Guard})
 	}
 	tj := map[string]interface{}{"nodeLits": lj, "envCases": ef.Cases, "envAccessors": ef.Accessors, "envDefaults": ef.Defaults,
-		"envMethodDerefs": ef.Methods, "envMethodRet": ef.MethodRet, "nodePointerFields": ptrs}
+		"envMethodDerefs": ef.Methods, "envMethodRet": ef.MethodRet, "nodePointerFields": ptrs,
+		"poolNumWorkers": pf.NumWorkers, "poolWorkerShape": pf.Worker}
 	tb, _ := json.MarshalIndent(tj, "", " ")
 	if err := os.WriteFile(filepath.Join(out, "tables.json"), tb, 0o644); err != nil {
 		die("%v", err)
